@@ -1881,7 +1881,7 @@ Proof.
   pose proof (top_err_clean c Hw) as Et. pose proof (carrier_clean c Hw) as Ec.
   pose proof Hw as Hwf. destruct (wf_fields_obj _ _ Hwf) as [Fp Fw].
   unfold inside in Hin. apply andb_true_iff in Hin as [_ Hout]. apply negb_true_iff in Hout.
-  unfold model in M. destruct (c_sink c) as [t sp|t|t|t| | |t|t|s0| | |] eqn:S; try discriminate.
+  unfold model in M. destruct (c_sink c) as [t sp|t|t|t| | |t|t|s0| | | |t'] eqn:S; try discriminate.
   - (* fmt *)
     destruct t; try discriminate.
     + destruct (negb (c_trace c) && plain sp && is_plusv sp); [|discriminate]. getm M.
